@@ -561,6 +561,9 @@ static void entropy_gen(Plan *p, uint64_t base_seed, uint64_t variant, int tier)
 		/* short bursts walk the retry path of rejection sampling; 100+ identical rejected draws exhaust it */
 		p->eburst_k = rng_chance(&v, 1, 4) ? (int64_t[]){ 99, 100, 101, 130 }[rng_below(&v, 4)] : 1 + rng_below(&v, 3);
 		p->eburst_val = 0xff;   /* all-ones draws are >= every group order: they drive the rejection-sampling retry path */
+		/* all-zero draws drive the "scalar must not be zero" retry; not for SM9, whose master-key generation accepts 0 and
+		 * later trips an assert (recorded in 12.2, outside the property) */
+		if (!(p->op && g_ops[p->op].sm9) && rng_chance(&v, 1, 3)) p->eburst_val = 0x00;
 	}
 }
 
@@ -948,6 +951,15 @@ static void entropy_run(const Plan *p, RunResult *r)
 	/* clause: no record other than an alert leaves the endpoint after the failed draw */
 	int dir = node == 0 ? DIR_C2S : DIR_S2C;
 	for (int i = 0; i < o.nrecs[dir]; i++) {
+		/* an alert sent after the handshake is a protected record of TLCP / TLS 1.2 and needs an IV of its own: if no
+		 * draw has succeeded since the failed one, this record was built on the unfilled bytes */
+		if (o.recs[dir][i].step > n->efail_step && o.recs[dir][i].type == TLS_record_alert && !o.recs[dir][i].in_hs && p->proto != P_TLS13
+		    && (n->efail_next_ok_step == 0 || n->efail_next_ok_step > o.recs[dir][i].step)) {
+			rr_violation(r, "x", "proto=%s %s: entropy draw %lld (%s) failed at step %llu, yet a protected alert record (#%d, %zu bytes) left the endpoint before any further draw succeeded",
+				g_proto_names[p->proto], role, (long long)p->efail_at, site, (unsigned long long)n->efail_step, i, o.recs[dir][i].len);
+			snprintf(r->vclass, sizeof(r->vclass), "entropy_fail_ignored:%s:%s:protected_alert:%s", g_proto_names[p->proto], role, site);
+			return;
+		}
 		if (o.recs[dir][i].step > n->efail_step && o.recs[dir][i].type != TLS_record_alert) {
 			rr_violation(r, "x", "proto=%s %s %s: entropy draw %lld (%s, %zu bytes) failed at step %llu, yet the endpoint then put record #%d (type %u, %zu bytes) on the wire; its handshake returned %d",
 				g_proto_names[p->proto], role, phase, (long long)p->efail_at, site, n->efail_len, (unsigned long long)n->efail_step,
